@@ -13,6 +13,12 @@
 //!                     hex, without LF): obs = `Ok:<hex of everything after the BCF header>` | `Err`
 //!   cvbl HDR.. ftab v45 blocks text the record section BCF -> VCF (blocks = one hex string):
 //!                     obs = `Ok:<hex of everything after the VCF header>` | `Err`
+//!   cvvh ftab lines text          (round 10, model NV.Util.ConvertVariantHdr) the WHOLE file VCF -> BCF with
+//!                     the header block: nothing about the header is a case argument - the model parses
+//!                     the header text itself (C09 read_header_text), derives the lookup tables
+//!                     (hctx_of_header), the string maps (C10 maps_of_header), the 4.5 switch of
+//!                     variant_span, and writes the BCF header block (C10 write_prefix);
+//!                     obs = `Ok:<hex of EVERYTHING the BCF writer emitted>` | `Err`
 //!   HDR.. = version infos filters formats contigs nsamples in the format of C10's `vb` kind
 //!   (defs `ID/Number/Type/IDX`, pairs `ID/IDX`), derived from the REAL parsed header of `text` and
 //!   re-derived at run time (a difference is a harness error); ftab = the float text oracle
@@ -185,6 +191,9 @@ fn gd<T>(f: impl FnOnce() -> io::Result<T>) -> Result<io::Result<T>, ()> {
 
 /// kind, the first HDR arg index is 0; args: 0..5 HDR, 6 ftab, 7 v45, 8 payload, 9 header text
 pub fn run(c: &Case) -> Obs {
+    if c.kind == "cvvh" {
+        return run_hdr(c);
+    }
     let text = c.b(9);
     let header = match gd(|| parse_header(&text)) {
         Ok(Ok(h)) => h,
@@ -249,6 +258,53 @@ pub fn run(c: &Case) -> Obs {
     }
 }
 
+/// cvvh: args 0 ftab, 1 lines (comma-separated hex, `_` = none), 2 header text
+fn run_hdr(c: &Case) -> Obs {
+    let text = c.b(2);
+    let mut src = text.clone();
+    if c.args[1] != "_" {
+        for l in c.args[1].split(',') {
+            src.extend_from_slice(&nv::unhex(l));
+            src.push(b'\n');
+        }
+    }
+    let s2 = src.clone();
+    let out = match gd(move || pipe_all(s2, Format::Bcf)) {
+        Err(()) => return Obs::ok("Panic", true),
+        Ok(Err(_)) => return Obs::ok("Err", false),
+        Ok(Ok(out)) => out,
+    };
+    let obs = format!("Ok:{}", hex(&out));
+    // oracle: the header the BCF reader reads back is the header the VCF reader parsed (as VCF text),
+    // and the records are the same canonical lines
+    let hdr_text = |h: &vcf::Header| -> io::Result<Vec<u8>> {
+        let mut w = vcf::io::Writer::new(Vec::new());
+        w.write_header(h)?;
+        Ok(w.into_inner())
+    };
+    let h_src = gd(|| parse_header(&text).and_then(|h| hdr_text(&h)));
+    let o2 = out.clone();
+    let h_dst = gd(move || bcf::io::Reader::from(Cursor::new(o2)).read_header().and_then(|h| hdr_text(&h)));
+    match (h_src, h_dst) {
+        (Ok(Ok(a)), Ok(Ok(b))) => {
+            if a != b {
+                return Obs::fail(obs, "convert-vcf-to-bcf-changes-header", String::from_utf8_lossy(&b).into_owned());
+            }
+        }
+        (_, Ok(Err(e))) => return Obs::fail(obs, "convert-vcf-to-bcf-output-unreadable", format!("header {} {e}", nv::errkind(&e))),
+        _ => return Obs::fail(obs, "convert-reader-panic", "a header reader panicked or the source header is unreadable"),
+    }
+    match (gd(|| canon_vcf(src)), gd(|| canon_bcf(out))) {
+        (Ok(Ok(a)), Ok(Ok(b))) => match super::common::first_diff(&a, &b) {
+            Some(d) => Obs::fail(obs, "convert-vcf-to-bcf-changes-records", d),
+            None => Obs::ok(obs, true),
+        },
+        (Ok(Err(_)), _) => Obs::ok(obs, false),
+        (_, Ok(Err(e))) => Obs::fail(obs, "convert-vcf-to-bcf-output-unreadable", format!("{} {e}", nv::errkind(&e))),
+        _ => Obs::fail(obs, "convert-reader-panic", "a format reader panicked on the conversion's input or output"),
+    }
+}
+
 fn push(w: &mut CaseWriter, kind: &str, header: &vcf::Header, header_text: &str, vcf_side: &[u8], payload: String) {
     let mut args = header_args(header);
     args.push(ftab_of(vcf_side));
@@ -273,6 +329,14 @@ pub fn generate(rng: &mut Rng, tier: &str, w: &mut CaseWriter) {
         let lines: Vec<&String> = if tier == "thorough" { spec.lines.iter().collect() } else { small.clone() };
         let joined: Vec<u8> = lines.iter().flat_map(|l| l.bytes().chain(std::iter::once(b'\n'))).collect();
         push(w, "cvvl", &header, &spec.header_text, &joined, lines.iter().map(|l| hex(l.as_bytes())).collect::<Vec<_>>().join(","));
+        {
+            let payload = lines.iter().map(|l| hex(l.as_bytes())).collect::<Vec<_>>().join(",");
+            w.push("cvvh", vec![ftab_of(&joined), if payload.is_empty() { "_".into() } else { payload }, hex(spec.header_text.as_bytes())]);
+            // the header alone
+            if i % 4 == 0 {
+                w.push("cvvh", vec!["-".into(), "_".into(), hex(spec.header_text.as_bytes())]);
+            }
+        }
         // the BCF side: what the real BCF writer makes of the same lines
         let mut text = spec.header_text.clone().into_bytes();
         let hdr_len = match pipe_all(text.clone(), Format::Bcf) {
